@@ -151,40 +151,151 @@ def type_text(w, sg, two):
     return "%s%s<%d>" % ("signed " if sg else "", "bit" if two else "logic", w)
 
 
-def to_veryl(m, top="Top"):
+def expr_vars(e, acc):
+    k = e[0]
+    if k in ("var", "sel"):
+        acc.add(e[1])
+    elif k in ("un", "cast", "sign"):
+        expr_vars(e[2], acc)
+    elif k == "bin":
+        expr_vars(e[2], acc)
+        expr_vars(e[3], acc)
+    elif k == "tern":
+        for x in e[1:]:
+            expr_vars(x, acc)
+    elif k == "cat":
+        for a, _ in e[1]:
+            expr_vars(a, acc)
+
+
+def stmt_rw(s, rd, wr):
+    k = s[0]
+    if k == "assign":
+        wr.add(s[1])
+        expr_vars(s[2], rd)
+    elif k == "asel":
+        wr.add(s[1])
+        expr_vars(s[4], rd)
+    elif k == "if":
+        expr_vars(s[1], rd)
+        for x in s[2] + s[3]:
+            stmt_rw(x, rd, wr)
+    elif k == "case":
+        expr_vars(s[1], rd)
+        for p, b in s[2]:
+            for x in b:
+                stmt_rw(x, rd, wr)
+        for x in s[3]:
+            stmt_rw(x, rd, wr)
+
+
+def item_rw(it):
+    rd, wr = set(), set()
+    if it[0] == "assign":
+        wr.add(it[1])
+        expr_vars(it[2], rd)
+    elif it[0] == "comb":
+        for s in it[1]:
+            stmt_rw(s, rd, wr)
+    else:
+        for s in (it[1] or []) + it[2]:
+            stmt_rw(s, rd, wr)
+    return rd, wr
+
+
+def item_lines(m, it):
     D = m["decls"]
+    lines = []
+    if it[0] == "assign":
+        lines.append("    assign %s = %s;" % (D[it[1]][0], expr_text(m, it[2])))
+    elif it[0] == "comb":
+        lines.append("    always_comb {")
+        for s in it[1]:
+            lines += stmt_text(m, s, 2)
+        lines.append("    }")
+    else:
+        lines.append("    always_ff {")
+        if it[1] is not None:
+            lines.append("        if_reset {")
+            for s in it[1]:
+                lines += stmt_text(m, s, 3)
+            lines.append("        } else {")
+            for s in it[2]:
+                lines += stmt_text(m, s, 3)
+            lines.append("        }")
+        else:
+            for s in it[2]:
+                lines += stmt_text(m, s, 2)
+        lines.append("    }")
+    return lines
+
+
+def to_veryl(m, top="Top"):
+    """Veryl text.  m may carry "children": [{"name": str, "items": [item indices]}]: those items are
+    printed inside a child module instantiated once in Top (the reference semantics sees the flat
+    item list; the hierarchy exists only in the text)."""
+    D = m["decls"]
+    children = m.get("children") or []
+    in_child = {}
+    for ci, ch in enumerate(children):
+        for i in ch["items"]:
+            in_child[i] = ci
+    rw = [item_rw(it) for it in m["items"]]
+    top_items = [i for i in range(len(m["items"])) if i not in in_child]
+    outside_reads = {}
+    texts = []
+    child_internal = set()
+    insts = []
+    for ci, ch in enumerate(children):
+        rd, wr = set(), set()
+        for i in ch["items"]:
+            rd |= rw[i][0]
+            wr |= rw[i][1]
+        other_rd = set()
+        for i in range(len(m["items"])):
+            if in_child.get(i) != ci:
+                other_rd |= rw[i][0]
+        outs = sorted(x for x in wr if x in other_rd or D[x][4] == "out")
+        ins = sorted(x for x in rd if x not in wr)
+        internal = sorted(x for x in wr if x not in outs)
+        child_internal |= set(internal)
+        has_ff = any(m["items"][i][0] == "ff" for i in ch["items"])
+        cl = ["module %s (" % ch["name"]]
+        if has_ff:
+            cl += ["    clk: input clock,", "    rst: input reset,"]
+        for x in ins:
+            cl.append("    %s: input %s," % (D[x][0], type_text(D[x][1], D[x][2], D[x][3])))
+        for x in outs:
+            cl.append("    %s: output %s," % (D[x][0], type_text(D[x][1], D[x][2], D[x][3])))
+        cl.append(") {")
+        for x in internal:
+            cl.append("    var %s: %s;" % (D[x][0], type_text(D[x][1], D[x][2], D[x][3])))
+        for i in ch["items"]:
+            cl += item_lines(m, m["items"][i])
+        cl.append("}")
+        texts.append("\n".join(cl))
+        ports = (["clk", "rst"] if has_ff else []) + [D[x][0] for x in ins + outs]
+        insts.append("    inst u%d: %s (%s);" % (ci, ch["name"], ", ".join(ports)))
     lines = ["module %s (" % top, "    clk: input clock,", "    rst: input reset,"]
     for (n, w, sg, two, kind) in D:
         if kind in ("in", "out"):
             lines.append("    %s: %s %s," % (n, "input" if kind == "in" else "output", type_text(w, sg, two)))
     lines.append(") {")
-    for (n, w, sg, two, kind) in D:
-        if kind == "var":
+    for x, (n, w, sg, two, kind) in enumerate(D):
+        if kind == "var" and x not in child_internal:
             lines.append("    var %s: %s;" % (n, type_text(w, sg, two)))
-    for it in m["items"]:
-        if it[0] == "assign":
-            lines.append("    assign %s = %s;" % (D[it[1]][0], expr_text(m, it[2])))
-        elif it[0] == "comb":
-            lines.append("    always_comb {")
-            for s in it[1]:
-                lines += stmt_text(m, s, 2)
-            lines.append("    }")
-        else:
-            lines.append("    always_ff {")
-            if it[1] is not None:
-                lines.append("        if_reset {")
-                for s in it[1]:
-                    lines += stmt_text(m, s, 3)
-                lines.append("        } else {")
-                for s in it[2]:
-                    lines += stmt_text(m, s, 3)
-                lines.append("        }")
-            else:
-                for s in it[2]:
-                    lines += stmt_text(m, s, 2)
-            lines.append("    }")
+    done_inst = set()
+    for i, it in enumerate(m["items"]):
+        if i in in_child:
+            ci = in_child[i]
+            if ci not in done_inst:
+                done_inst.add(ci)
+                lines.append(insts[ci])
+            continue
+        lines += item_lines(m, it)
     lines.append("}")
-    return "\n".join(lines) + "\n"
+    texts.append("\n".join(lines))
+    return "\n".join(texts) + "\n"
 
 
 def expr_wire(e):
@@ -669,3 +780,42 @@ def gen_stimulus(rng, m, cycles, p_reset=0.06, xz=False):
 def gen_program(rng, **profile):
     g = Gen(rng, **profile)
     return g.build()
+
+
+# ------------------------------------------------------------------------------------ JSON (replays, corpus)
+
+def _tj(x):
+    if isinstance(x, tuple):
+        return {"t": [_tj(y) for y in x]}
+    if isinstance(x, list):
+        return [_tj(y) for y in x]
+    if isinstance(x, int) and not isinstance(x, bool) and abs(x) >= (1 << 53):
+        return {"n": "%x" % x}
+    return x
+
+
+def _fj(x):
+    if isinstance(x, dict):
+        if "t" in x:
+            return tuple(_fj(y) for y in x["t"])
+        if "n" in x:
+            return int(x["n"], 16)
+    if isinstance(x, list):
+        return [_fj(y) for y in x]
+    return x
+
+
+def module_to_json(m):
+    return {"decls": _tj(m["decls"]), "items": _tj(m["items"]), "order": list(m["order"])}
+
+
+def module_from_json(j):
+    return {"decls": _fj(j["decls"]), "items": _fj(j["items"]), "order": list(j["order"])}
+
+
+def stim_to_json(stim):
+    return [[1 if r else 0, [["%x" % p, "%x" % mk] for p, mk in vals]] for r, vals in stim]
+
+
+def stim_from_json(j):
+    return [(bool(r), [(int(p, 16), int(mk, 16)) for p, mk in vals]) for r, vals in j]
